@@ -163,9 +163,25 @@ class Seq:
         with warnings.catch_warnings():
             warnings.simplefilter('ignore')
             if o['op'] in ('EP', 'EK'):
-                msg = pgpy.PGPMessage.new(o['msg'], compression=0)
+                if o.get('sameobj') and getattr(self, 'last_msg', None) is not None and self.last_msg[0] == o['msg']:
+                    msg = self.last_msg[1]          # the very same PGPMessage object as in the previous operation
+                else:
+                    msg = pgpy.PGPMessage.new(o['msg'], compression=0)
+                self.last_msg = (o['msg'], msg)
                 if o.get('enc'):
                     msg = msg.encrypt('inner passphrase', cipher=SymmetricKeyAlgorithm.AES128)   # outside the observed window
+            if o['op'] == 'PR':
+                key = keypool.get(o['rcpt'])
+                if o.get('reprotect'):
+                    # an already protected key (outside the observed window): protected in this process, or loaded from a protected export
+                    _h = HashAlgorithm(8); _old = _h._tuned_count; _h._tuned_count = 96
+                    try:
+                        key.protect('old passphrase', SymmetricKeyAlgorithm(o.get('oldcipher', 9)), _h)
+                    finally:
+                        _h._tuned_count = _old
+                    if o['reprotect'] == 'loaded':
+                        key = pgpy.PGPKey.from_blob(bytes(key))[0]
+                o['_key'] = key
             with Source() as src:
                 if o['op'] == 'EP':
                     out = msg.encrypt(o['pw'], cipher=SymmetricKeyAlgorithm(c), sessionkey=sk)
@@ -174,16 +190,21 @@ class Seq:
                     out = keys[o['rcpt']].pubkey.encrypt(msg, cipher=SymmetricKeyAlgorithm(c), sessionkey=sk)
                     res = bytes(out)
                 else:
-                    key = keypool.get(o['rcpt'])
+                    key = o.get('_key')
                     h = HashAlgorithm(o['halg'])
                     old = h._tuned_count
                     h._tuned_count = o['count']
                     try:
-                        key.protect(o['pw'], SymmetricKeyAlgorithm(c), h)
+                        if o.get('reprotect'):
+                            with key.unlock('old passphrase'):
+                                key.protect(o['pw'], SymmetricKeyAlgorithm(c), h)
+                        else:
+                            key.protect(o['pw'], SymmetricKeyAlgorithm(c), h)
                     finally:
                         h._tuned_count = old
                     res = bytes(key)
                     out = key
+        o.pop('_key', None)
         return src.draws, res, out
 
     def model_op(self, o, keys):
@@ -388,6 +409,26 @@ def _run(ctx, d, pgpy):
         o = {'op': 'EP', 'cipher': c, 'pw': 'second', 'msg': 'm', 'sk': None, 'enc': True}
         Seq(ctx, d, pgpy, suite, state).run([o], keys)
         ctx.case(suite, c, sample=o)
+
+    # ---- 2b. re-protecting an already protected key (same or other cipher, in-process or loaded) must draw a fresh IV and salt
+    suite = 'reprotect'
+    for n in (rcpts[:2] if ctx.quick else rcpts):
+        for how in ('inprocess', 'loaded'):
+            for c, oldc in ((9, 9), (7, 9), (9, 8), (2, 3)):
+                o = {'op': 'PR', 'cipher': c, 'rcpt': n, 'pw': 'new pw', 'halg': 8, 'count': 96, 'reprotect': how, 'oldcipher': oldc}
+                Seq(ctx, d, pgpy, suite, state).run([o, dict(o)], keys)
+                ctx.case(suite, (n, how, c, oldc), sample={k: v for k, v in o.items()})
+    # ---- 2c. the very same PGPMessage object encrypted several times in a row (same cipher, same / different recipients)
+    suite = 'same-message-object'
+    for c in (9, 7):
+        for kinds in (['pass', 'pass'], rcpts[:1] * 3, rcpts[:2] + rcpts[:1], ['pass'] + rcpts[:1] + ['pass']):
+            ops = []
+            for kind in kinds:
+                ops.append({'op': 'EP', 'cipher': c, 'pw': 'the passphrase', 'msg': 'one message object', 'sk': None, 'enc': False, 'sameobj': True} if kind == 'pass' else
+                           {'op': 'EK', 'cipher': c, 'rcpt': kind, 'msg': 'one message object', 'sk': None, 'enc': False, 'sameobj': True})
+            sq = Seq(ctx, d, pgpy, suite, state); sq.last_msg = None
+            sq.run(ops, keys)
+            ctx.case(suite, (c, tuple(kinds)), sample={'cipher': c, 'recipients': kinds})
 
     # ---- 3. random sequences
     suite = 'sequences'
